@@ -978,7 +978,13 @@ def check(ctx: Ctx, rep: Report):
     rep.rule("C03.R2", "every byte / hex field of a request is proven to fit (negative values in two's complement)", 20)
     rep.rule("C03.R3", "AA55 templates: length byte = bytes that follow; header and checksum over the same string", 16)
     rep.rule("C03.R4", "Modbus/TCP transaction id: non-zero, two bytes, changes on every transmission", 6)
+    rep.rule("C03.R5", "each request sent is freshly built from the arguments of this call: the command factories return exactly one construction of the matching class with their own arguments (shared with C18.R1 factory:*)", 8)
     r1(ctx, rep)
     r2_modbus(ctx, rep)
     r2_r3(ctx, rep)
     r4(ctx, rep)
+    from .c18 import factories, Wire
+    sub = Report("C18", rep.tier)
+    factories(ctx, sub, ctx.memo("wire", lambda: Wire(ctx)))
+    for o in sub.obligations:
+        rep.obligations.append(type(o)("C03.R5", o.key, o.where, o.what, o.status, o.detail))
